@@ -388,6 +388,30 @@ def run_c14(chk):
         chk.absorb("schema-order", sub, res2)
         collect_refs(chk, sub, res2, refs, "run%d" % k)
     chk.extra_cov["worker_process_rounds"] = m
+    # --- published dependencies in two versions: every history of spec/DepVersions.tla in a process of its own
+    rd = chk.tlc("DepVersions.tla", "DepVersions.cfg", "depversions", workers=1, timeout=300)
+    if rd.violated or rd.error:
+        chk.machinery_errors.append("DepVersions: %s %s" % (rd.violated, (rd.error or "")[:300]))
+    seen_dep = {}
+    ndep = 0
+    for c in rd.cases:
+        p = chk.vh_one("schema-deps", c, timeout=120)
+        try:
+            env = json.loads(p.stdout[p.stdout.index("{"):])
+        except Exception:
+            chk.machinery_errors.append("schema-deps gave no result for %s: %s" % (c, (p.stdout + p.stderr)[-400:]))
+            continue
+        chk.absorb("schema-deps", [c], [env])
+        ndep += 1
+        for v, ds in (((env.get("out") or {}).get("obs") or {}).get("digests") or {}).items():
+            for d in ds:
+                if v not in seen_dep:
+                    seen_dep[v] = (d, c)
+                elif seen_dep[v][0] != d:
+                    chk.violation("schema-deps", c, "C14|dependency-version|cross-process",
+                                  "the bundle compiled against dependency %s gives %s after history %s and %s after history %s (each in a fresh process)"
+                                  % (v, d, c["history"], seen_dep[v][0], seen_dep[v][1]["history"]))
+    chk.extra_cov["dependency_version_histories"] = ndep
     # --- the invalid bundle, for information
     r = chk.tlc("CompileOrderMC.tla", "CompileOrder_dupcases.cfg", "dupcases", workers=4, timeout=600)
     dres = chk.replay("schema-order", r.cases, "order_dup", workers=4, timeout="120s")
